@@ -64,12 +64,15 @@ C12_KnownEventsOnly(H) ==
 JobStarts(H) == {a \in Idx(H.log) : H.log[a].kind = "job" /\ H.log[a].seg = 1}
 C13_NotEarly(H) == \A a \in Idx(H.log) : H.log[a].kind = "job" => H.log[a].clock >= H.log[a].when
 C13_AtMostOnce(H) == \A a, b \in JobStarts(H) : a # b => H.log[a].job # H.log[b].job
+\* a job scheduled for a time that had already passed when it was scheduled ("late") can only run as soon as possible: the
+\* ordering claims are about jobs that were scheduled for the present or the future
+Late(H, a) == \E j \in H.sched : j.id = H.log[a].job /\ j.late
 C13_Ordered(H) ==
-  /\ \A a, b \in JobStarts(H) : a < b => H.log[a].when <= H.log[b].when
+  /\ \A a, b \in JobStarts(H) : (a < b /\ ~Late(H, a) /\ ~Late(H, b)) => H.log[a].when <= H.log[b].when
   \* after all events with an earlier time, before any event with a later time
   /\ \A a, b \in Idx(H.log) :
        /\ (a < b /\ H.log[a].kind = "job" /\ H.log[b].kind = "ev") => H.log[a].when <= H.log[b].when
-       /\ (a < b /\ H.log[a].kind = "ev" /\ H.log[b].kind = "job" /\ H.log[b].seg = 1) => H.log[a].when <= H.log[b].when
+       /\ (a < b /\ H.log[a].kind = "ev" /\ H.log[b].kind = "job" /\ H.log[b].seg = 1 /\ ~Late(H, b)) => H.log[a].when <= H.log[b].when
 LastEventIdx(H) == LET E == {a \in Idx(H.log) : H.log[a].kind = "ev"} IN
                    IF E = {} THEN 0 ELSE CHOOSE m \in E : \A x \in E : x <= m
 \* every job scheduled no later than the handling of the last event ran (exactly once, see AtMostOnce)
